@@ -139,7 +139,12 @@ def _check(case):
     if sm.shape != mean.shape or not np.allclose(np.sort(sm), np.sort(mean), rtol=0, atol=tol):      # as a multiset: the storage order is not stated
         return viol("fit:mean_per_column", "sensitive_mean_ does not hold the per-column means of the sensitive columns", sm.tolist(), mean.tolist())
     beta = np.asarray(getattr(cr, "beta_", np.nan), dtype=float)
-    if rank < ks and beta.shape == (ks, ko) and float(np.abs(beta).max()) * float(sv[0]) > 1e6 * max(1.0, float(np.abs(Z).max())):
+    # what the code's own centring leaves in floating point: singular values of S - S.mean(axis=0) against lstsq's DOCUMENTED default cut-off
+    # eps*max(n,k)*s_max.  Only a noise singular value above (half of) that cut-off belongs to the recorded finding; a rank-deficient case whose
+    # noise lies below the documented cut-off must come out right (a change of the cut-off, e.g. rcond=-1, is then reported as a new violation).
+    svn = np.linalg.svd(S - S.mean(axis=0), compute_uv=False) if ks else np.zeros(0)
+    noise_fitted_by_default = ks > 0 and svn.size > 0 and svn[0] > 0 and int(np.sum(svn > 0.5 * np.finfo(float).eps * max(n, ks) * svn[0])) > rank
+    if rank < ks and noise_fitted_by_default and beta.shape == (ks, ko) and float(np.abs(beta).max()) * float(sv[0]) > 1e6 * max(1.0, float(np.abs(Z).max())):
         # the centred block is exactly rank-deficient, but the rounding noise of the centring (~eps*|mean|) exceeds lstsq's default cut-off
         # (eps*max(n,k)*s_max): the noise direction is fitted with coefficients ~1e14 and the output is garbage.  Own key, nothing else is
         # judged on such a case.
